@@ -328,7 +328,7 @@ ASSUME = ['in-place mutation of a field list bypasses __setattr__ and is outside
 
 def main(argv):
     return run_check('C10', [C10Stream()], argv, trusted_base=TRUSTED, assumptions=ASSUME,
-                     translated=('policy',))
+                     translated=('policy', 'on_generated'))
 
 
 if __name__ == '__main__':
